@@ -324,6 +324,15 @@ def c15_d(ctx: Ctx):
                     out.append(ctx.inc(R, sjw, c, msg + ": " + ex[0][:60], construct=k2))
             else:
                 out.append(ctx.viol(R, sjw, c, "a file is copied without testing the exclude patterns", construct=k2))
+    # the exclude list may be shared between concurrently synchronised jobs: entries are only ever added
+    sj2 = ctx.fn(SJ)
+    dels = [n for n in body_nodes(sj2) if (isinstance(n, ast.Delete) and any(isinstance(t, ast.Subscript) and canon(t.value) == "exclude" for t in n.targets))
+            or (isinstance(n, ast.Call) and isinstance(n.func, ast.Attribute) and canon(n.func.value) == "exclude" and n.func.attr in ("pop", "remove", "clear"))]
+    if dels:
+        out.append(ctx.viol(R, sj2, dels[0], f"sync_jobs removes entries from the exclude list ({stmt_key(dels[0], 40)}); with parallel project synchronisation the list object is shared, so a job that "
+                            "finishes removes the reserved state point / document names of a job that is still walking its files: parallel and sequential runs differ", construct=SJ + "|exclude-shrinks"))
+    else:
+        out.append(ctx.ok(R, sj2, sj2.node, "sync_jobs only ever adds to the exclude list", construct=SJ + "|exclude-shrinks"))
     # clone branch and exclude (known gap)
     clone_calls = [n for n in body_nodes(inner) if isinstance(n, ast.Call) and "signac.project:Project.clone" in common.targets_of(ctx, inner, n)]
     for c in clone_calls:
